@@ -464,16 +464,30 @@ theorem construct_none (w : World) (o : Org) :
 /-- the constructor bodies allocate_and_default_construct / allocate_and_fill / allocate_and_copy into an empty slot -/
 theorem inv_pCtor {c : Cfg} {w : World} (h : Inv c w) (o : Org) (s : Nat) (img0 : Img) (W H : Nat) (content : List Nat) (src : Option (Nat × Nat))
     (hs : w.imgs s = none) (h0 : img0.mem = none ∧ img0.w = 0 ∧ img0.h = 0 ∧ img0.pix = []) (ht : c.empty = true → img0.tag = 0)
-    (hlen : content.length = W * H) : Inv c (pCtor c o w s img0 W H content src).1 := by
+    (hlen : content.length = W * H)
+    (hz : c.keepDims = true → o.needed img0.align W H = 0 → W * H = 0) : Inv c (pCtor c o w s img0 W H content src).1 := by
   unfold pCtor
   simp only []
   split
   next hn0 =>
     split
-    · exact h
-    · refine h.setless s (by simp [hs]) (some { img0 with allocated := o.needed img0.align W H }) ?_ (by simp) (by intro x; simp) (by simp)
-      intro j hj; cases hj
-      exact ⟨h0.1, hn0, by simp [h0.2.1], by simp [h0.2.2.2], ht⟩
+    next hk =>
+      have hwh := hz hk hn0
+      rw [hwh]
+      obtain ⟨c1, c2, c3, c4⟩ := construct_none w o
+      cases hres : w.construct o none 0 with
+      | mk w2 okc =>
+        rw [hres] at c1 c2 c3 c4
+        simp only [] at c1 c2 c3 c4; subst c4
+        simp only []
+        refine h.setless s (by simp [hs]) (some { Img.withView o { img0 with allocated := o.needed img0.align W H } W H with pix := content }) ?_ (by simp [c3]) (by intro x; simp [c1]) (by simp [c2])
+        intro j hj; cases hj
+        exact ⟨by simp [Img.withView, h0.1], by simp [Img.withView, hn0], by simp [Img.withView, hwh], by simp [hlen, hwh], by simpa [Img.withView] using ht⟩
+    · split
+      · exact h
+      · refine h.setless s (by simp [hs]) (some { img0 with allocated := o.needed img0.align W H }) ?_ (by simp) (by intro x; simp) (by simp)
+        intro j hj; cases hj
+        exact ⟨h0.1, hn0, by simp [h0.2.1], by simp [h0.2.2.2], ht⟩
   next hn0 =>
     rcases alloc_cases w img0.tag (o.needed img0.align W H) with e | ⟨fa, e⟩
     · rw [e]; exact h.congr rfl rfl rfl
@@ -608,6 +622,10 @@ theorem inv_andThen {c : Cfg} (r : World × Outcome) (k : World → World × Out
   · exact h
 
 
+theorem construct_imgs0 (w : World) (o : Org) (b : Option Nat) (n : Nat) : (w.construct o b n).1.imgs = w.imgs := by
+  unfold World.construct World.grow
+  cases b <;> simp <;> (repeat' split) <;> simp
+
 /-- slots other than the constructed one are untouched by a constructor; the constructed image has the allocator it was given -/
 theorem pCtor_imgs (c : Cfg) (o : Org) (w : World) (s : Nat) (img0 : Img) (W H : Nat) (content : List Nat) (src : Option (Nat × Nat)) :
     (∀ x, x ≠ s → (pCtor c o w s img0 W H content src).1.imgs x = w.imgs x) ∧
@@ -616,9 +634,19 @@ theorem pCtor_imgs (c : Cfg) (o : Org) (w : World) (s : Nat) (img0 : Img) (W H :
   simp only []
   split
   · split
-    · exact ⟨fun _ _ => rfl, fun j hj hn => by rw [hn] at hj; cases hj⟩
-    · refine ⟨fun x hx => by simp [hx], fun j hj _ => ?_⟩
-      simp at hj; subst hj; rfl
+    · have ci := construct_imgs0 w o none (W * H)
+      cases hres : w.construct o none (W * H) with
+      | mk w2 okc =>
+        rw [hres] at ci; simp only [] at ci
+        cases okc with
+        | true =>
+          refine ⟨fun x hx => by simp [hx, ci], fun j hj _ => ?_⟩
+          simp at hj; subst hj; simp [Img.withView]
+        | false => exact ⟨fun x _ => by simp [ci], fun j hj hn => by simp [ci, hn] at hj⟩
+    · split
+      · exact ⟨fun _ _ => rfl, fun j hj hn => by rw [hn] at hj; cases hj⟩
+      · refine ⟨fun x hx => by simp [hx], fun j hj _ => ?_⟩
+        simp at hj; subst hj; rfl
   · rcases alloc_cases w img0.tag (o.needed img0.align W H) with e | ⟨fa, e⟩
     · rw [e]; exact ⟨fun _ _ => rfl, fun j hj hn => by rw [hn] at hj; cases hj⟩
     · rw [e]; simp only []
@@ -638,12 +666,38 @@ theorem pCtor_imgs (c : Cfg) (o : Org) (w : World) (s : Nat) (img0 : Img) (W H :
           refine ⟨fun x _ => by simp [ci, hi1], fun j hj hn => ?_⟩
           simp [ci, hi1, hn] at hj
 
-/-- the only recreate shapes that are excluded: the reuse branch is taken while an element construction is about to fail (finding
-    C10_reuse_throw_witness), or with sizes so large that `total_allocated_size_in_bytes` wraps to 0 for a non-empty image -/
+/-- no size_t wrap for a constructor: a needed byte size of 0 means an empty pixel range.  Only relevant for the source variant in which
+    allocate_ keeps the requested dimensions of an image that needs no storage (`keepDims`); vacuous for the other variant. -/
+def NoWrap (c : Cfg) (o : Org) (al W H : Nat) : Prop := c.keepDims = true → o.needed al W H = 0 → W * H = 0
+
+/-- the only operation shapes that are excluded: recreate takes the reuse branch while an element construction is about to fail (finding
+    C10_reuse_throw_witness), or sizes so large that `total_allocated_size_in_bytes` wraps to 0 for a non-empty image -/
 def RecreateOK (c : Cfg) (w : World) : Op → Prop
-  | .recreate s W H al _ _ _ => ∀ o i, c.orgOf s = some o → w.imgs s = some i → i.allocated ≥ o.needed al W H →
-        (i.mem = none → W * H = 0) ∧ CtorOK o w (W * H)
+  | .recreate s W H al _ _ _ => ∀ o i, c.orgOf s = some o → w.imgs s = some i →
+        (i.allocated ≥ o.needed al W H → (i.mem = none → W * H = 0) ∧ CtorOK o w (W * H)) ∧ NoWrap c o al W H
+  | .dims s _ al W H _ => ∀ o, c.orgOf s = some o → NoWrap c o al W H
+  | .fill s _ al W H _ => ∀ o, c.orgOf s = some o → NoWrap c o al W H
+  | .fillprobe s _ al W H _ => ∀ o, c.orgOf s = some o → NoWrap c o al W H
+  | .fromview s _ al s2 => ∀ o b, c.orgOf s = some o → w.imgs s2 = some b → NoWrap c o al b.w b.h
+  | .copy s s2 => ∀ o b, c.orgOf s = some o → w.imgs s2 = some b → NoWrap c o b.align b.w b.h
+  | .assign s s2 => ∀ o b, c.orgOf s = some o → w.imgs s2 = some b → NoWrap c o b.align b.w b.h
+  | .massign s s2 => ∀ o a b, c.orgOf s = some o → w.imgs s = some a → w.imgs s2 = some b → NoWrap c o a.align b.w b.h
   | _ => True
+
+theorem recreateOK_of_not_keepDims {c : Cfg} (hk : c.keepDims = false) (w : World) (op : Op)
+    (hrec : ∀ s W H al f a v, op = .recreate s W H al f a v → ∀ o i, c.orgOf s = some o → w.imgs s = some i →
+        i.allocated ≥ o.needed al W H → (i.mem = none → W * H = 0) ∧ CtorOK o w (W * H)) : RecreateOK c w op := by
+  have nw : ∀ o al W H, NoWrap c o al W H := by intro o al W H hh; rw [hk] at hh; cases hh
+  cases op with
+  | recreate s W H al f a v => exact fun o i ho hi => ⟨hrec s W H al f a v rfl o i ho hi, nw _ _ _ _⟩
+  | dims s t al W H v => exact fun o _ => nw _ _ _ _
+  | fill s t al W H v => exact fun o _ => nw _ _ _ _
+  | fillprobe s t al W H v => exact fun o _ => nw _ _ _ _
+  | fromview s t al s2 => exact fun o b _ _ => nw _ _ _ _
+  | copy s s2 => exact fun o b _ _ => nw _ _ _ _
+  | assign s s2 => exact fun o b _ _ => nw _ _ _ _
+  | massign s s2 => exact fun o a b _ _ _ => nw _ _ _ _
+  | _ => trivial
 
 theorem orgOf_lt {c : Cfg} {s : Nat} {o : Org} (h : c.orgOf s = some o) : s < 6 := by
   unfold Cfg.orgOf at h; split at h
@@ -686,12 +740,12 @@ theorem inv_stepRec {c : Cfg} {w : World} (h : Inv c w) (htmp : w.imgs tmpSlot =
       refine inv_andThen _ _ ?_ ?_
       · split
         next hge =>
-          obtain ⟨hz, hc⟩ := hok o i ho hs hge
+          obtain ⟨hz, hc⟩ := (hok o i ho hs).1 hge
           refine inv_pReuse h1 o s W H _ (by simp) ?_ ?_
           · intro j hj hm; simp at hj; subst hj; exact hz hm
           · unfold CtorOK at hc ⊢; simpa using hc
         · refine inv_swapWithTmp o _ s ?_ hsafe
-          refine inv_pCtor h1 o tmpSlot _ W H _ none (by simp [hne, htmp]) (fresh_ok _ _) ?_ (by simp)
+          refine inv_pCtor h1 o tmpSlot _ W H _ none (by simp [hne, htmp]) (fresh_ok _ _) ?_ (by simp) ((hok o i ho hs).2)
           intro he
           show tmpTag c alloc = 0
           unfold tmpTag
@@ -704,7 +758,7 @@ theorem inv_stepRec {c : Cfg} {w : World} (h : Inv c w) (htmp : w.imgs tmpSlot =
         · exact hw'
 
 theorem inv_stepAssign {c : Cfg} {w : World} (h : Inv c w) (htmp : w.imgs tmpSlot = none) (hsafe : SwapSafe c)
-    (o : Org) (s s2 : Nat) : Inv c (stepAssign c o w s s2).1 := by
+    (o : Org) (s s2 : Nat) (hnw : ∀ b, w.imgs s2 = some b → NoWrap c o b.align b.w b.h) : Inv c (stepAssign c o w s s2).1 := by
   unfold stepAssign
   split
   next a b hs hs2 =>
@@ -712,11 +766,12 @@ theorem inv_stepAssign {c : Cfg} {w : World} (h : Inv c w) (htmp : w.imgs tmpSlo
     next hd =>
       exact h.upd0 s a { a with pix := b.pix } hs rfl rfl rfl rfl rfl (by rw [h.pixlen s2 b hs2, hd.1, hd.2]) (by simp) (by intro x; simp) (by simp)
     · refine inv_swapWithTmp o _ s ?_ hsafe
-      exact inv_pCtor h o tmpSlot _ b.w b.h b.pix _ htmp ⟨rfl, rfl, rfl, rfl⟩ (fun he => h.tags he s2 b hs2) (h.pixlen s2 b hs2)
+      exact inv_pCtor h o tmpSlot _ b.w b.h b.pix _ htmp ⟨rfl, rfl, rfl, rfl⟩ (fun he => h.tags he s2 b hs2) (h.pixlen s2 b hs2) (hnw b hs2)
   next => exact h
 
 theorem inv_stepMoveAssign {c : Cfg} {w : World} (h : Inv c w) (htmp : w.imgs tmpSlot = none)
-    (o : Org) (s s2 : Nat) (hs6 : s < 6) : Inv c (stepMoveAssign c o w s s2).1 := by
+    (o : Org) (s s2 : Nat) (hs6 : s < 6) (hnw : ∀ a b, w.imgs s = some a → w.imgs s2 = some b → NoWrap c o a.align b.w b.h) :
+    Inv c (stepMoveAssign c o w s s2).1 := by
   unfold stepMoveAssign
   split
   next a b hs hs2 =>
@@ -733,7 +788,7 @@ theorem inv_stepMoveAssign {c : Cfg} {w : World} (h : Inv c w) (htmp : w.imgs tm
             intro a' b' ha' hb'; rw [hs] at ha'; rw [hs2] at hb'; cases ha'; cases hb'; exact Or.inr heq
           · split
             · have hnt : s ≠ tmpSlot := by unfold tmpSlot; omega
-              refine inv_andThen _ _ (inv_pCtor h o tmpSlot _ b.w b.h b.pix _ htmp (fresh_ok _ _) (fun he => h.tags he s a hs) (h.pixlen s2 b hs2)) ?_
+              refine inv_andThen _ _ (inv_pCtor h o tmpSlot _ b.w b.h b.pix _ htmp (fresh_ok _ _) (fun he => h.tags he s a hs) (h.pixlen s2 b hs2) (hnw a b hs hs2)) ?_
               intro w' hw' hw'eq
               obtain ⟨hoth, htag⟩ := pCtor_imgs c o w tmpSlot (Img.fresh a.align a.tag) b.w b.h b.pix (some (b.w, b.h))
               simp only []
@@ -760,17 +815,17 @@ theorem inv_step {c : Cfg} {w : World} (h : Inv c w) (htmp : w.imgs tmpSlot = no
   | dims s t al W H v =>
     simp only [step]; split
     next o ho hs =>
-      refine inv_andThen _ _ (inv_pCtor h o s _ W H _ none hs (fresh_ok _ _) (fun he => tagOf_empty t he) (by simp)) ?_
+      refine inv_andThen _ _ (inv_pCtor h o s _ W H _ none hs (fresh_ok _ _) (fun he => tagOf_empty t he) (by simp) (hok o ho)) ?_
       intro w' hw' _; exact inv_userFill hw' s v
     · exact h
   | fill s t al W H v =>
     simp only [step]; split
-    next o ho hs => exact inv_pCtor h o s _ W H _ none hs (fresh_ok _ _) (fun he => tagOf_empty t he) (by simp)
+    next o ho hs => exact inv_pCtor h o s _ W H _ none hs (fresh_ok _ _) (fun he => tagOf_empty t he) (by simp) (hok o ho)
     · exact h
   | fillprobe s t al W H v =>
     simp only [step]; split
     next o ho hs =>
-      have hp := inv_pCtor h o s (Img.fresh al (c.tagOf t)) W H (List.replicate (W * H) v) none hs (fresh_ok _ _) (fun he => tagOf_empty t he) (by simp)
+      have hp := inv_pCtor h o s (Img.fresh al (c.tagOf t)) W H (List.replicate (W * H) v) none hs (fresh_ok _ _) (fun he => tagOf_empty t he) (by simp) (hok o ho)
       split
       next w' heq => rw [heq] at hp; exact inv_userFill hp s v
       next r hr => exact hp
@@ -779,12 +834,12 @@ theorem inv_step {c : Cfg} {w : World} (h : Inv c w) (htmp : w.imgs tmpSlot = no
     simp only [step]; split
     next o b ho hs hs2 =>
       split
-      · exact inv_pCtor h o s _ b.w b.h b.pix _ hs (fresh_ok _ _) (fun he => tagOf_empty t he) (h.pixlen s2 b hs2)
+      · exact inv_pCtor h o s _ b.w b.h b.pix _ hs (fresh_ok _ _) (fun he => tagOf_empty t he) (h.pixlen s2 b hs2) (hok o b ho hs2)
       · exact h
     · exact h
   | copy s s2 =>
     simp only [step]; split
-    next o _ b ho _ hs hs2 => exact inv_pCtor h o s _ b.w b.h b.pix _ hs ⟨rfl, rfl, rfl, rfl⟩ (fun he => h.tags he s2 b hs2) (h.pixlen s2 b hs2)
+    next o _ b ho _ hs hs2 => exact inv_pCtor h o s _ b.w b.h b.pix _ hs ⟨rfl, rfl, rfl, rfl⟩ (fun he => h.tags he s2 b hs2) (h.pixlen s2 b hs2) (hok o b ho hs2)
     · exact h
   | move s s2 =>
     simp only [step]; split
@@ -796,13 +851,13 @@ theorem inv_step {c : Cfg} {w : World} (h : Inv c w) (htmp : w.imgs tmpSlot = no
     · exact h
   | assign s s2 =>
     simp only [step]; split
-    next o _ ho _ => exact inv_stepAssign h htmp hsafe o s s2
+    next o _ ho _ => exact inv_stepAssign h htmp hsafe o s s2 (fun b hb => hok o b ho hb)
     · exact h
   | massign s s2 =>
     simp only [step]; split
     next o ho =>
       split
-      · exact inv_stepMoveAssign h htmp o s s2 (orgOf_lt ho)
+      · exact inv_stepMoveAssign h htmp o s s2 (orgOf_lt ho) (fun a b ha hb => hok o a b ho ha hb)
       · exact h
     · exact h
   | swap s s2 =>
@@ -858,12 +913,26 @@ theorem pCtor_fail_imgs (c : Cfg) (o : Org) (w : World) (s : Nat) (img0 : Img) (
   unfold pCtor at hf ⊢
   simp only [] at hf ⊢
   split
-  · split
-    · rfl
-    · rename_i h1 h2
-      exfalso; apply hf
-      simp only [h1, if_true]
-      rw [if_neg h2]
+  · rename_i h1
+    simp only [h1, if_true] at hf
+    split
+    · rename_i hk
+      simp only [hk, if_true] at hf
+      have ci := construct_imgs0 w o none (W * H)
+      cases hres : w.construct o none (W * H) with
+      | mk w2 okc =>
+        rw [hres] at ci hf; simp only [] at ci hf
+        cases okc with
+        | true => simp at hf
+        | false => simp [ci]
+    · rename_i hk
+      have hkf : c.keepDims = false := by simpa using hk
+      simp only [hkf, Bool.false_eq_true, if_false] at hf
+      split
+      · rfl
+      · rename_i h2
+        exfalso; apply hf
+        rw [if_neg h2]
   · rename_i hn0
     simp only [hn0, if_false] at hf
     rcases alloc_cases w img0.tag (o.needed img0.align W H) with e | ⟨fa, e⟩
